@@ -969,6 +969,56 @@ mod pool {
         with_first_packet::<true, _>(check_key::<true>);
     }
 
+    /// The stream key the pool stores for the first fragment of a datagram (hook `verif_active_ids`): every
+    /// component - VLAN ids, source, destination, identification, payload protocol, channel - comes from the
+    /// right header field. Two datagrams are the same stream iff these components are equal, so this decides
+    /// "streams never mix" at the key level for every packet.
+    fn check_stored_key<const V6: bool>(k: &Pkt, sliced: &SlicedPacket) {
+        let s = &k.s;
+        let fragmented = k.with_frag_header && (k.more || k.off != 0);
+        let unaligned = k.more && k.plen % 8 != 0;
+        let too_big = k.off as usize * 8 + k.plen > 0xffff;
+        assume(fragmented && !unaligned && !too_big);
+        let mut pool = IpDefragPool::<(), u8>::new();
+        seed(&mut pool);
+        let r = pool.process_sliced_packet(sliced, (), s.chan);
+        assert!(matches!(r, Ok(None)));
+        let ids = pool.verif_active_ids();
+        assert!(ids.len() == 1, "exactly one stream is being reconstructed");
+        let id = &ids[0];
+        witness!(s.ntags == 2, "double_tagged_fragment");
+        assert!(id.vlan_ids.len() == s.ntags as usize, "key: number of VLAN ids");
+        assert!(s.ntags < 1 || id.vlan_ids[0].value() == s.vid[0], "key: outer VLAN id");
+        assert!(s.ntags < 2 || id.vlan_ids[1].value() == s.vid[1], "key: inner VLAN id");
+        assert!(id.payload_ip_number == IpNumber(s.proto), "key: payload protocol");
+        assert!(id.channel_id == s.chan, "key: channel");
+        let i = any_le(15);
+        match &id.ip {
+            IpFragVersionSpecId::Ipv4 { source, destination, identification } => {
+                assert!(!V6);
+                assume(i < 4);
+                assert!(source[i] == s.src[i], "key: IPv4 source");
+                assert!(destination[i] == s.dst[i], "key: IPv4 destination");
+                assert!(*identification as u32 == s.ident, "key: IPv4 identification");
+            }
+            IpFragVersionSpecId::Ipv6 { source, destination, identification } => {
+                assert!(V6);
+                assert!(source[i] == s.src[i], "key: IPv6 source");
+                assert!(destination[i] == s.dst[i], "key: IPv6 destination");
+                assert!(*identification == s.ident, "key: IPv6 identification");
+            }
+        }
+        core::mem::forget(ids);
+        core::mem::forget(r);
+        core::mem::forget(pool);
+    }
+    pub fn pool_stored_key_v4() {
+        with_first_packet::<false, _>(check_stored_key::<false>);
+    }
+    pub fn pool_stored_key_v6() {
+        with_first_packet::<true, _>(check_stored_key::<true>);
+    }
+
     pub fn pool_first_v4() {
         pool_first::<false>()
     }
@@ -1019,6 +1069,8 @@ crate::harnesses! {
     c11_pool_first_v4 = pool_first_v4; unwind 5,
     c11_pool_first_v6 = pool_first_v6; unwind 5,
     c11_pool_non_ip = pool_non_ip; unwind 5,
+    c11_pool_stored_key_v4 = pool_stored_key_v4; unwind 5,
+    c11_pool_stored_key_v6 = pool_stored_key_v6; unwind 5,
 }
 // without the hooks (native replay binary): the harnesses that need no hook; the history harnesses
 // then run without re-seating (natively that makes no difference)
